@@ -56,25 +56,24 @@ def bodyAllowed (lockOf : ROp → Guard) (b : State) (i : Nat) (op : ROp) : Prop
   | some k => b.ths[i]? = some (.holding k)
   | Option.none => True
 
-inductive CStep (lockOf : ROp → Guard) : CState σ → CState σ → Prop
+inductive CStep (lockOf : ROp → Guard) (M : (σ → σ) → Prop) : CState σ → CState σ → Prop
   /-- any step of the lock (call, wake-up, unlock, notify) -/
   | lock (s : CState σ) (b' : State) (h : Step s.base b') :
-      CStep lockOf s { base := b', cur := s.cur,
-                       snap := fun i => if newly s.base b' i then s.cur else s.snap i,
-                       obs := fun i => if newly s.base b' i then [] else s.obs i }
-  /-- the body of a mutating operation takes effect (one atomic change of the router) -/
-  | mutate (s : CState σ) (i : Nat) (op : ROp) (hm : op.mutates = true) (f : σ → σ)
-      (h : bodyAllowed lockOf s.base i op) : CStep lockOf s { s with cur := f s.cur }
+      CStep lockOf M s (CState.mk b' s.cur (fun i => if newly s.base b' i then s.cur else s.snap i)
+                         (fun i => if newly s.base b' i then [] else s.obs i))
+  /-- the body of a mutating operation takes effect (one atomic change of the router by an allowed mutator `M f`) -/
+  | mutate (s : CState σ) (i : Nat) (op : ROp) (hm : op.mutates = true) (f : σ → σ) (hf : M f)
+      (h : bodyAllowed lockOf s.base i op) : CStep lockOf M s (CState.mk s.base (f s.cur) s.snap s.obs)
   /-- the body of a reading operation looks at the router (one step of the traversal / one callback) -/
   | observe (s : CState σ) (i : Nat) (op : ROp) (hm : op.mutates = false)
       (h : bodyAllowed lockOf s.base i op) :
-      CStep lockOf s { s with obs := fun j => if j = i then s.obs i ++ [s.cur] else s.obs j }
+      CStep lockOf M s (CState.mk s.base s.cur s.snap (fun j => if j = i then s.obs i ++ [s.cur] else s.obs j))
 
 def cinit (n : Nat) (r0 : σ) : CState σ := ⟨init n, r0, fun _ => r0, fun _ => []⟩
 
-inductive CReach (lockOf : ROp → Guard) (n : Nat) (r0 : σ) : CState σ → Prop
-  | init : CReach lockOf n r0 (cinit n r0)
-  | step {s t} : CReach lockOf n r0 s → CStep lockOf s t → CReach lockOf n r0 t
+inductive CReach (lockOf : ROp → Guard) (M : (σ → σ) → Prop) (n : Nat) (r0 : σ) : CState σ → Prop
+  | init : CReach lockOf M n r0 (cinit n r0)
+  | step {s t} : CReach lockOf M n r0 s → CStep lockOf M s t → CReach lockOf M n r0 t
 
 /-- the lock table is adequate: every operation runs under a named guard, mutating ones under the write lock -/
 def TableOk (lockOf : ROp → Guard) : Prop :=
